@@ -150,6 +150,12 @@ func init() {
 				}
 			case "Div", "Mod": // Euclidean
 				ex.panicIf(st, Eq(b, BV(w, 0)), "big.Int division by zero", site)
+				if op == "Mod" && ex.bounds["bigmodcondsub"] > 0 && b.IsConst() {
+					// stated bound: 0 <= a < 2·m, so a mod m is one conditional subtraction (no divider for the solver)
+					st.assume(And(Not(Slt(a, BV(w, 0))), Slt(a, Add(b, b)))) // stated restriction (see harness assumptions)
+					r = Ite(Slt(a, b), a, Sub(a, b))
+					break
+				}
 				q := Bin(OpBvSdiv, a, b)
 				m := Bin(OpBvSrem, a, b)
 				negM := Slt(m, BV(w, 0))
@@ -240,6 +246,21 @@ func init() {
 		if a.IsConst() {
 			bb := a.ConstBig().Bytes()
 			return ex.bytesValue(st, append([]byte{}, bb...))
+		}
+		if k := ex.bounds["bigfixedbytes"]; k > 0 && 8*k <= w {
+			// stated bound: the value needs exactly k bytes (no leading zero byte, nothing above); the short-key case
+			// (probability 2^-8 per derived key) is C18's subject
+			top := Extract(8*k-1, 8*k-8, a)
+			// a restriction of the input space (like vsAssume), stated in the harness assumptions
+			st.assume(Not(Eq(top, BV(8, 0))))
+			if 8*k < w {
+				st.assume(Eq(Bin(OpBvLshr, a, BV(w, uint64(8*k))), BV(w, 0)))
+			}
+			es := make([]Value, k)
+			for j := 0; j < k; j++ {
+				es[j] = Extract(8*(k-j)-1, 8*(k-j-1), a)
+			}
+			return ex.mkSliceFromElems(st, es)
 		}
 		shifted := Bin(OpBvShl, a, Mul(Zext(lz, w), BV(w, 8)))
 		es := make([]Value, L)
